@@ -151,6 +151,8 @@ def static_scan():
 
 # ---------------------------------------------------------------------------------------------------------------------------
 def check(run):
+    import genlib
+    genlib.validate_eam_builder(run, n=run.n(60, 600))
     run.rule = ("(a) per generated model and target: bytes after a random history (other models built, evaluation orders shuffled/interleaved, write twice, rebuild) vs bytes of a fresh build; "
                 "(b) potable entry point in fresh processes under %s hash seeds; (c) static scan of set iterations / mutable defaults vs the accounted sites; "
                 "distinct = (model text, target, history kind)" % ("4" if run.quick else "16"))
